@@ -19,6 +19,12 @@ def run(spec, col, judge, n_seed, n_tape, budget_seed=20000, budget_tape=4000, s
     def account(case):
         if case.program is None:
             col.feature('discarded_oversize' if case.oversize else 'discarded_generator_error(C18 territory)')
+            if case.error:
+                # kept so that the case can be handed to C18 (./vcheck C18 --replay <file with this key as "case">)
+                col.feature('generator_error:%s@%s' % (case.error['type'], (case.error.get('frames') or ['?'])[-1]))
+                col.extra.setdefault('generator_error_keys', [])
+                if len(col.extra['generator_error_keys']) < 3:
+                    col.extra['generator_error_keys'].append(case.key())
             col.case(key=repr(case.key())[:80], nontrivial=False)
             return []
         viols, nontriv, sample, key = judge(case)
